@@ -210,7 +210,10 @@ pub struct FormOutcome {
 }
 
 pub fn send_form(req: &Req, steps: Option<Vec<Step>>) -> Result<(FormOutcome, Outcome), String> {
-    let out = ENV.with(|env| run_req(env, req, Some(steps.unwrap_or_else(|| split_frames(&req.body, &[]))), false))?;
+    // harness-chosen framings come, for half of the cases (a pure function of the case), over a transport that does
+    // not announce the body's length
+    let with_hint = steps.as_ref().is_none_or(|s| (s.len() + req.body.len()) % 2 == 0);
+    let out = ENV.with(|env| crate::props::authenv::run_req_hint(env, req, Some(steps.unwrap_or_else(|| split_frames(&req.body, &[]))), false, with_hint))?;
     if let Some(e) = &out.transport_error {
         return Err(format!("transport error: {e}"));
     }
